@@ -214,6 +214,14 @@ def loop_exit_programs():
             'inner_break_then_return': [inner_for([If(Bin('==', Var('j', INT), Lit(INT, 1)), [Break()]), m()]), r()],
             'inner_continue_then_return': [inner_for([If(Bin('==', Var('j', INT), Lit(INT, 1)), [Continue()]), m()]), r()],
             'only_return': [m(), r()],
+            # an exit of the OUTER loop before / between / after nested loops, in bodies that cannot complete (what a code generator
+            # remembers about the outer loop must survive the nested one)
+            'continue_inner_loop_return': [If(c1(), [m(), Continue()]), inner_for([m()]), r()],
+            'break_inner_loop_return': [If(c1(), [m(), Break()]), inner_for([m()]), r()],
+            'continue_two_inner_loops_return': [If(c1(), [Continue()]), inner_for([m()]), While(Lit(BOOL, False, keep=True), [m()]), r(2)],
+            'inner_loop_continue_return': [inner_for([m()]), If(c1(), [m(), Continue()]), r()],
+            'continue_inner_loop_with_own_exits_return': [If(c1(), [Continue()]), inner_for([If(Bin('==', Var('j', INT), Lit(INT, 1)), [Continue()]), If(Bin('==', Var('j', INT), Lit(INT, 2)), [Break()]), m()]), r()],
+            'continue_inner_loop_win': [If(c1(), [m(), Continue()]), inner_for([m()]), ExprStmt(Call('all_is_win', []))],
             'plain_body': [If(c1(), [Continue()]), If(c2(), [Break()]), m()],
             'continue_then_win': [If(c1(), [m(), Continue()]), ExprStmt(Call('all_is_win', []))],
             'block_continue_return': [Block([If(c1(), [Continue()]), r()])],
